@@ -2,6 +2,8 @@
   C08 — single-response methods yield exactly one response or an error (in-process stream API;
   the unary call path is InprocUnary, the HTTP server's second-request probe is Framing/C07).
 -/
+import Proofs.C01
+import Proofs.C02
 import Proofs.Lemmas.InprocAll
 import Proofs.Lemmas.InprocUnaryAll
 
@@ -119,3 +121,87 @@ theorem C08_unary_second_response_is_error (s : St) (v : Nat) (rest : List UFram
   simp [step, hres, hch, hgot]
 
 end InprocUnary
+
+/-! ### HTTP/1.1 client stream -/
+namespace HttpClientStream
+open InprocStream (Reason Res codeOf)
+
+/-- the recorded error is never a message -/
+theorem rErr_not_msg (rs : Bool) (s : St) (h : Reachable rs s) (y : Nat) : s.rErr ≠ some (.msg y) ∧ s.rdErr ≠ some (.msg y) :=
+  reachable_induction rs (fun s => s.rErr ≠ some (.msg y) ∧ s.rdErr ≠ some (.msg y)) (by simp [init])
+    (fun s a s' evs hp hs => by
+      obtain ⟨h1, h2⟩ := hp
+      cases a <;> simp only [step, complete] at hs <;> (repeat' split at hs) <;>
+        (try (simp only [Option.some.injEq, Prod.mk.injEq, reduceCtorEq] at hs)) <;>
+        (try (obtain ⟨rfl, rfl⟩ := hs)) <;> (try (exfalso; assumption)) <;> simp_all [ctxStatus]
+      all_goals (first | (subst_vars; simp_all; done) | grind)) s h
+
+theorem rErr_not_ok (rs : Bool) (s : St) (h : Reachable rs s) : s.rErr ≠ some .ok :=
+  (reachable_induction rs (fun s => s.rErr ≠ some .ok ∧ s.rdErr ≠ some .ok) (by simp [init])
+    (fun s a s' evs hp hs => by
+      obtain ⟨h1, h2⟩ := hp
+      cases a <;> simp only [step, complete] at hs <;> (repeat' split at hs) <;>
+        (try (simp only [Option.some.injEq, Prod.mk.injEq, reduceCtorEq] at hs)) <;>
+        (try (obtain ⟨rfl, rfl⟩ := hs)) <;> (try (exfalso; assumption)) <;> simp_all [ctxStatus]
+      all_goals (first | (subst_vars; simp_all; done) | grind)) s h).1
+
+/-- **HTTP single response: a second message is an error**, whatever its timing relative to the
+    client's look-ahead: once the look-ahead has received it, RecvMsg returns Internal — or, if the
+    reader goroutine recorded an error of its own first, that error; never success. When it records
+    Internal itself, the stream cancels its own context so that the reader cannot hang. -/
+theorem C08_http_second_response_is_error (rs : Bool) (s : St) (h : Reachable rs s) (hm : s.cRecv = some .violation) :
+    ∃ s' r, step s .cViolation = some (s', [.ret .cr r]) ∧ r ≠ .eof ∧ (∀ x, r ≠ .msg x) ∧ r ≠ .ok ∧
+      s'.delivered = s.delivered ∧ (s.rErr = none → r = .status 13 ∧ s'.done = true ∧ s'.ctx.isSome = true) := by
+  have hi := hinv_reachable rs s h
+  cases hr : s.rErr with
+  | some e =>
+    refine ⟨{ s with cRecv := none }, e, by simp [step, hm, hr], ?_, ?_, ?_, rfl, by simp⟩
+    · intro he; exact hi.rErrNotEof (he ▸ hr)
+    · intro x he; exact (rErr_not_msg rs s h x).1 (he ▸ hr)
+    · intro he; exact (rErr_not_ok rs s h) (he ▸ hr)
+  | none =>
+    refine ⟨{ s with cRecv := none, done := true, rErr := some (.status 13),
+                     ctx := (match s.ctx with | some r => some r | none => some .canceled) },
+            .status 13, (by simp only [step, hm, hr]; rfl), by simp, by simp, by simp, rfl, ?_⟩
+    intro _
+    refine ⟨rfl, rfl, ?_⟩
+    cases s.ctx <;> simp
+
+/-- **…and the single message is returned only with a clean OK end**: in the look-ahead, the closed
+    channel yields the message exactly when the final outcome is io.EOF — i.e. (C02) an OK trailer
+    was read; any other outcome takes precedence over the message. -/
+theorem C08_http_single_response_needs_ok (rs : Bool) (s s' : St) (evs : List Ev) (m x : Nat)
+    (h : Reachable rs s) (hm : s.cRecv = some (.probe m))
+    (hs : step s .cRecvClosed = some (s', evs)) (hev : Ev.ret .cr (.msg x) ∈ evs) :
+    x = m ∧ finalOf s = .eof ∧ s.sawTrailerOK = true := by
+  have hi := hinv_reachable rs s h
+  simp only [step, hm] at hs
+  split at hs
+  · rename_i hcl
+    have hd := hi.closedDone hcl
+    simp [hd] at hs
+    split at hs
+    · rename_i hf
+      simp at hs; obtain ⟨_, rfl⟩ := hs; simp at hev
+      have hfe : finalOf s = .eof := by simpa using hf
+      exact ⟨hev, hfe, C02_http_eof_only_with_ok_trailer rs s h hd hfe⟩
+    · rename_i hf
+      simp at hs; obtain ⟨_, rfl⟩ := hs; simp at hev
+      rw [← hev] at hf
+      -- the outcome would have to be a message, but `finalOf` never is one
+      exfalso
+      have : ∀ y, finalOf s ≠ .msg y := by
+        intro y
+        have hne : s.rErr ≠ some (.msg y) := by
+          intro hr
+          exact (rErr_not_msg rs s h y).1 hr
+        unfold finalOf
+        cases hr : s.rErr with
+        | some e => simp; intro he; subst he; exact hne hr
+        | none => cases s.tr with
+          | none => simp
+          | some c => cases c <;> simp
+      exact this x hev.symm
+  · simp at hs
+
+end HttpClientStream
